@@ -44,7 +44,8 @@ PROBES = [
 ]
 
 EINTR = 4
-ACTION_NAMES = {1: "EIO", 2: "ENOSPC", 3: "EPIPE", 4: "EACCES", 5: "EMFILE", 6: "EINTR", 7: "SHORT_THEN_ENOSPC", 9: "PLAIN_SHORT"}
+ACTION_NAMES = {1: "EIO", 2: "ENOSPC", 3: "EPIPE", 4: "EACCES", 5: "EMFILE", 6: "EINTR", 7: "SHORT_THEN_ENOSPC", 9: "PLAIN_SHORT",
+                12: "EAGAIN"}   # EAGAIN: the descriptor was inherited in non-blocking mode and no data is ready
 
 # fixture paths (relative to the run directory)
 GOOD = "d/good.txt"
@@ -193,7 +194,7 @@ def systematic_cases():
                 ops.append({"op": "read", "h": "h", "n": 10})
             case(ops, note="%s %s with %s on open(2)" % (op, mode, ACTION_NAMES[act]))
     # C. injected errno on read(2)
-    for act in (1, 6):
+    for act in (1, 6, 12):
         for nth in (1, 2):
             for warm in (False, True):
                 pre = [{"op": "open", "path": GOOD, "mode": "r", "var": "h"}]
@@ -345,7 +346,7 @@ def gen_random(rng, deep=False):
         if o["op"] in ("open", "pcap_open") and rng.chance(35):
             o["fault"] = ["O", 1, rng.choice([4, 5, 6]), 0]
         elif o["op"] in ("read", "read_line", "read_to_string", "pcap_read_next", "pcap_read_all", "pcap_stream") or (o["op"] == "pcap_open" and o["mode"] == "r"):
-            o["fault"] = ["R", rng.weighted([(70, 1), (20, 2), (10, 3)]), rng.weighted([(75, 1), (25, 6)]), 0]
+            o["fault"] = ["R", rng.weighted([(70, 1), (20, 2), (10, 3)]), rng.weighted([(60, 1), (22, 6), (18, 12)]), 0]
         elif o["op"] in ("write", "flush", "pcap_write"):
             o["fault"] = ["W", rng.weighted([(75, 1), (25, 2)]), rng.weighted([(30, 2), (25, 7), (12, 1), (13, 3), (10, 6), (10, 9)]), rng.choice([1, 3, 100, 4096, 8000])]
         else:
